@@ -32,7 +32,30 @@ def file_body(rnd, name, depth, allow_bad=True):
     return "\n".join(lines) + "\n", tag
 
 
+def chain_case(rnd, idx):
+    """a chain main -> f1 -> ... -> fk of real files where only SOME levels have semantic errors (in particular:
+    clean intermediate files in front of an erroneous innermost one)"""
+    cid = f"c{idx}"
+    root = f"{BASE}/{cid}"
+    k = rnd.randint(2, 4)
+    names = [f"f{j}.inc" for j in range(1, k + 1)]
+    bad = [rnd.random() < 0.35 for _ in range(k)]
+    bad[-1] = True if rnd.random() < 0.7 else bad[-1]
+    files = {}
+    for j, n in enumerate(names):
+        body = [f"int v{j} = {j};"]
+        if j + 1 < k:
+            body.insert(rnd.randint(0, 1), f'include "{names[j + 1]}";')
+        if bad[j]:
+            body.append(rnd.choice([f"int w{j} = undeclared_{j};", f"float c{j} = 2.1; int d{j} = c{j};", f"int v{j} = 9;"]))
+        files[f"d1/{n}"] = "\n".join(body) + "\n"
+    main = "int m0 = 0;\n" + f'include "{names[0]}";\n' + rnd.choice(["", "int m1 = nope;\n", "int m1 = v0;\n"])
+    return {"id": cid, "files": files, "main": main, "search": ["d1"], "env": None, "root": root}
+
+
 def gen_case(rnd, idx):
+    if rnd.random() < 0.12:
+        return chain_case(rnd, idx)
     cid = f"c{idx}"
     root = f"{BASE}/{cid}"
     files = {}
